@@ -509,6 +509,13 @@ func main() {
 			// same type, tiny pools: equalities and orderings between the three are frequent
 			name = "same-type-small"
 			g.small = true
+			if k >= 5 {
+				// same type, three neighbours of one base value (a few ulps / integer steps apart)
+				name = "same-type-neighbours"
+				g.small = false
+				g.cluster = true
+				g.clusterBase = r.Intn(8)
+			}
 			code := allCodes[(i/block/40)%nCodes]
 			for j := range s {
 				s[j] = g.value(code, 1)
